@@ -397,6 +397,34 @@ class CountingFuture:
         return cls._cls
 
 
+class HookLock:
+    """wraps `OperationsManager._transactions_lock`: runs a hook right before the lock is acquired (a yield point of the
+    forced schedules: the only places where another thread can get in are outside the critical sections)"""
+
+    def __init__(self, real, hook):
+        self.real = real
+        self.hook = hook
+        self.busy = False
+
+    def __enter__(self):
+        if not self.busy:
+            self.busy = True
+            try:
+                self.hook()
+            finally:
+                self.busy = False
+        return self.real.__enter__()
+
+    def __exit__(self, *a):
+        return self.real.__exit__(*a)
+
+    def acquire(self, *a, **k):
+        return self.real.acquire(*a, **k)
+
+    def release(self):
+        return self.real.release()
+
+
 class Loopback:
     """soap client of one consumer: hands the request to the provider's message converter in-process"""
 
@@ -416,6 +444,8 @@ class Consumer:
         self.reader = e.MessageReader(e.SdcV1Definitions, [], lg, validate=True)
         self.factory = e.MessageFactory(e.SdcV1Definitions, [], lg, validate=True)
         self.mgr = e.c_ops.OperationsManager(self.reader, f'c{idx}')
+        self.lock_events = []
+        self.mgr._transactions_lock = HookLock(self.mgr._transactions_lock, lambda: rig.run_lock_events(self))
         self.outbox = []           # report bytes not yet delivered (provider order)
         self.lines = []            # model lines
         self.impl = []             # implementation answers per line
@@ -465,23 +495,30 @@ class Rig:
             for h, op in sco._registered_operations.items():
                 op._operation_handler = self._handler
                 self.ops[h] = (si, op)
-        # workers: created by the real start_worker, thread not started; queue get/put stepped
+        # workers: the real threads created and started by the real start_worker; every `get` of the worker loop waits
+        # for a grant of the controlling thread, so ONE `run()` invocation lives through the whole script
         self.workers = []
-        with mock.patch.object(e.sco._OperationsWorker, 'start', lambda self_: None):
-            for sco in self.scos:
-                sco.start_worker()
-        for si, sco in enumerate(self.scos):
-            w = sco._worker
-            q = w._operations_queue
-            self._step_queue(si, q)
-            self.workers.append(w)
-        self.cap = self.workers[0]._operations_queue.maxsize
+        self.gates = []
+        self.errors = []
         self.busy = set()
         self._tick_ctx = {}
+        rig = self
+        real_start = threading.Thread.start
+
+        def start(worker):
+            rig._gate_queue(len(rig.workers), worker._operations_queue)
+            rig.workers.append(worker)
+            real_start(worker)
+        with mock.patch.object(e.sco._OperationsWorker, 'start', start):
+            for sco in self.scos:
+                sco.start_worker()
+        self.cap = self.workers[0]._operations_queue.maxsize
         self.msgs = []          # provider log: ('resp'|'report'|'fault', tx, state, err, errmsg?) in emission order
         self.plines = []        # provider model lines
         self.pimpl = []         # implementation answers per provider line
         self.inflight = []      # model view: ids that have been generated and not yet dispatched
+        self.id_log = []        # one slot per request in the order the requests reached the provider: the id it got
+        self.unhooked = 0       # requests whose id did not come from SdcProvider.generate_transaction_id
         self.calls = {}         # message id -> call spec
         self.stack = []
         self.executions = 0
@@ -508,6 +545,12 @@ class Rig:
         self.base_version = dev.mdib.mdib_version
 
     def close(self):
+        for g in self.gates:
+            with g.cv:
+                g.stop = True
+                g.cv.notify_all()
+        for w in self.workers:
+            w.join(2)
         for p in self.patches:
             p.stop()
         _stop_device(self.dev)
@@ -523,15 +566,23 @@ class Rig:
         return update_from_node
 
     # ---- worker stepping
-    def _step_queue(self, si, q):
+    def _gate_queue(self, si, q):
         rig = self
         orig_get, orig_put = q.get, q.put
-        q.verif_budget = 0
+        g = types.SimpleNamespace(cv=threading.Condition(), waiting=False, granted=False, stop=False, arrivals=0)
+        self.gates.append(g)
 
         def get(block=True, timeout=None):  # noqa: ARG001
-            if q.verif_budget <= 0:
-                return 'stop_sco'
-            q.verif_budget -= 1
+            with g.cv:
+                g.waiting = True
+                g.arrivals += 1
+                g.cv.notify_all()
+                while not g.granted and not g.stop:
+                    g.cv.wait(1)
+                g.waiting = False
+                if g.stop:
+                    return 'stop_sco'
+                g.granted = False
             item = orig_get(block=False)    # queue.Empty propagates to the worker loop as in the real get(timeout)
             rig._on_pop(si, item)
             return item
@@ -541,20 +592,29 @@ class Rig:
         q.get, q.put = get, put
 
     def tick(self, si):
-        """one iteration of the real worker loop of SCO `si` (an empty queue is an idle iteration); a worker that is
-        inside a handler cannot start another iteration"""
+        """one iteration of the real worker loop of SCO `si`, executed by the worker thread while the calling thread waits
+        (an empty queue is an idle iteration); a worker that is inside a handler cannot start another iteration"""
         if si >= len(self.workers) or si in self.busy:
             return
-        w = self.workers[si]
-        q = w._operations_queue
+        g = self.gates[si]
         self.busy.add(si)
         self._tick_ctx[si] = None
-        q.verif_budget = 1
         line = len(self.plines)
         self.plines.append(f'tick {si}')
         self.pimpl.append(None)
         try:
-            w.run()
+            with g.cv:
+                t_end = time.time() + 20
+                while not g.waiting:
+                    if not g.cv.wait(1) and time.time() > t_end:
+                        raise RuntimeError('worker thread is not waiting at its queue')
+                n = g.arrivals
+                g.granted = True
+                g.cv.notify_all()
+                t_end = time.time() + 60
+                while g.arrivals == n:
+                    if not g.cv.wait(1) and time.time() > t_end:
+                        raise RuntimeError('worker thread did not come back to its queue')
         finally:
             self.busy.discard(si)
         popped = self._tick_ctx[si]
@@ -578,7 +638,11 @@ class Rig:
             if st.MetricValue is None:
                 st.mk_metric_value()
             st.MetricValue.Value = Decimal(st.MetricValue.Value or 0) + 1
-        self.run_events(spec.get('in_handler', ()))
+        try:
+            self.run_events(spec.get('in_handler', ()))
+        except BaseException as ex:  # noqa: BLE001
+            self.errors.append(repr(ex))
+            raise
         out = spec['outcome']
         if out == 'raise':
             raise ValueError('verif: handler raises')
@@ -604,7 +668,11 @@ class Rig:
     def _after_id(self, tx):
         ctxs = self.stack[-1]
         ctxs['tx'] = tx
-        spec = ctxs['spec']
+        self.id_log[ctxs['slot']] = tx
+        self._log_recv(ctxs['spec'], tx)
+        self.run_events(ctxs['spec'].get('after_id', ()))
+
+    def _log_recv(self, spec, tx):
         h = spec['op']
         if h in self.ops:
             si, op = self.ops[h]
@@ -614,7 +682,6 @@ class Rig:
         self.plines.append(f"recv {sco} {mode} {spec['outcome']}")
         self.pimpl.append(f'ok {tx}')
         self.inflight.append(tx)
-        self.run_events(spec.get('after_id', ()))
 
     def _post(self, consumer, path, created_message):
         e = self.e
@@ -622,7 +689,8 @@ class Rig:
         msgid = created_message.p_msg.header_info_block.MessageID
         self.calls[msgid] = spec
         data = created_message.serialize()
-        frame = {'spec': spec, 'tx': None}
+        frame = {'spec': spec, 'tx': None, 'slot': len(self.id_log)}
+        self.id_log.append(None)
         self.stack.append(frame)
         nmsg = len(self.msgs)
         status, reason, xml = self.dev._msg_converter.do_post({}, path, 'verif', data)
@@ -630,6 +698,12 @@ class Rig:
         tx = frame['tx']
         md = consumer.reader.read_received_message(xml)
         is_fault = md.action.endswith('/fault')
+        if tx is None and not is_fault:
+            # the id was not taken from SdcProvider.generate_transaction_id: read it from the response
+            tx = e.msg_types.AbstractSetResponse.from_node(md.p_msg.msg_node).InvocationInfo.TransactionId
+            self.unhooked += 1
+            self.id_log[frame['slot']] = tx
+            self._log_recv(spec, tx)
         if tx is not None:
             k = self.inflight.index(tx)
             self.inflight.pop(k)
@@ -652,6 +726,8 @@ class Rig:
         self.run_events(spec.get('before_response', ()))
         if is_fault:
             raise e.HTTPReturnCodeError(status, reason, None)
+        # events that happen exactly when call_operation is about to enter its critical section
+        consumer.lock_events = list(spec.get('at_lock', ()))
         return md
 
     @staticmethod
@@ -665,7 +741,7 @@ class Rig:
         h = spec['op']
         kind = spec.get('kind') or self._kind(h)
         self._cur_spec = spec
-        nested = any(spec.get(k) for k in ('after_id', 'in_handler', 'before_response'))
+        nested = any(spec.get(k) for k in ('after_id', 'in_handler', 'before_response', 'at_lock'))
         snap = self.snapshot() if (h not in self.ops and not nested) else None
         execs = self.executions
         fut = None
@@ -779,6 +855,11 @@ class Rig:
         c.lines.append(f'drop {fid}')
         c.impl.append('-')
 
+    def run_lock_events(self, consumer):
+        evs, consumer.lock_events = consumer.lock_events, []
+        if evs:
+            self.run_events(evs)
+
     # ---- script interpreter
     def run_events(self, events):
         for ev in events:
@@ -832,9 +913,10 @@ def provider_oracle(ctx, rig, specs, script):
     for m in rig.msgs:
         by_tx.setdefault(m[1], []).append(m)
     ids = [s['tx'] for s in specs if s.get('tx') is not None]
-    gen_order = [int(i.split()[1]) for l, i in zip(rig.plines, rig.pimpl) if l.startswith('recv')]
-    if len(set(gen_order)) != len(gen_order) or gen_order != sorted(gen_order):
-        ctx.fail('tx-id:not-unique-increasing', f'ids in generation order: {gen_order}', script)
+    gen_order = [t for t in rig.id_log if t is not None]    # all requests to this provider (Set and Context service, known
+    if len(set(gen_order)) != len(gen_order) or gen_order != sorted(gen_order):   # and unknown operations), in arrival order
+        ctx.fail('tx-id:not-unique-increasing', f'transaction ids of all requests to the provider in the order they arrived: {gen_order}', script)
+        return
     for spec in specs:
         tx = spec.get('tx')
         if tx is None:
@@ -934,7 +1016,7 @@ def gen_script(rng, rig_ops, cap, n_consumers, size, maxlen):
                 'outcome': rng.choice(FINALS + ['raise', 'Fin', 'Fin', 'raise'])}
         specs.append(spec)
         if depth < 2:
-            for key, p in (('after_id', 0.15), ('in_handler', 0.2), ('before_response', 0.5)):
+            for key, p in (('after_id', 0.15), ('in_handler', 0.2), ('before_response', 0.5), ('at_lock', 0.3)):
                 if rng.random() < p:
                     spec[key] = mk_events(rng.randint(1, 3), depth + 1, inside=key)
         return ('call', spec)
@@ -962,7 +1044,8 @@ def script_canon(events):
         if e[0] == 'call':
             s = e[1]
             return ['call', s['id'], s['op'], s['consumer'], s['outcome'], [ev(x) for x in s.get('after_id', ())],
-                    [ev(x) for x in s.get('in_handler', ())], [ev(x) for x in s.get('before_response', ())]]
+                    [ev(x) for x in s.get('in_handler', ())], [ev(x) for x in s.get('before_response', ())],
+                    [ev(x) for x in s.get('at_lock', ())]]
         return list(e)
     return [ev(e) for e in events]
 
@@ -974,7 +1057,7 @@ def script_from_canon(canon):
         if c[0] == 'call':
             spec = {'id': c[1], 'op': c[2], 'consumer': c[3], 'outcome': c[4]}
             specs.append(spec)
-            for key, sub in zip(('after_id', 'in_handler', 'before_response'), c[5:8]):
+            for key, sub in zip(('after_id', 'in_handler', 'before_response', 'at_lock'), c[5:9]):
                 if sub:
                     spec[key] = [ev(x) for x in sub]
             return ('call', spec)
@@ -993,6 +1076,10 @@ def run_script(ctx, events, specs, modes, model_cases, check_parts=True, shrink=
         canon = {'modes': sorted(h for h, d in modes.items() if d), 'events': script_canon(events)}
         rig.run_events(events)
         rig.drain()
+        if rig.errors:
+            raise RuntimeError(f'harness error inside a handler: {rig.errors[:2]}')
+        if rig.unhooked:
+            ctx.count('id-not-from-SdcProvider.generate_transaction_id', rig.unhooked)
         provider_oracle(ctx, rig, specs, canon)
         consumer_oracle(ctx, rig, specs, canon, window_ok=check_parts)
         if shrink and len(ctx.failures) > n_fail and len(canon['events']) > 1:
@@ -1104,6 +1191,8 @@ class ConsumerRig:
                         mock.patch.object(e.msg_types.OperationInvokedReportPart, 'update_from_node', update_from_node)]
         for p in self.patches:
             p.start()
+        self._trace = []
+        self._lock_results = []
         self.new_manager()
         self._cache = {}
 
@@ -1113,12 +1202,98 @@ class ConsumerRig:
 
     def new_manager(self):
         self.mgr = self.e.c_ops.OperationsManager(self.reader, 'x')
+        self.lock_events = []
+        self.mgr._transactions_lock = HookLock(self.mgr._transactions_lock, self._run_lock_events)
         self.maxlen = self.mgr._last_operation_invoked_reports.maxlen
         self.futures = {}
         self.reported = set()
         self.lines = [f'creset {self.maxlen}']
         self.impl = ['ok']
         self.uid = 0
+
+    def _run_lock_events(self):
+        evs, self.lock_events = self.lock_events, []
+        for ev in evs:
+            self._lock_results.append(self.step(ev))
+
+    def traced_programs(self):
+        """lock operations and accesses to the shared rendez-vous state during call_operation /
+        on_operation_invoked_report, in model terms, for the typical situations"""
+        import collections
+        progs = []
+        rig = self
+
+        class TLock:
+            def __init__(self, real):
+                self.real = real
+
+            def __enter__(self):
+                rig._trace.append('acq')
+                return self.real.__enter__()
+
+            def __exit__(self, *a):
+                rig._trace.append('rel')
+                return self.real.__exit__(*a)
+
+        class TDeque(collections.deque):
+            def __iter__(self):
+                rig._trace.append('scanBuf')
+                return super().__iter__()
+
+            def append(self, x):
+                rig._trace.append('appendBuf')
+                return super().append(x)
+
+        class TDict(dict):
+            def __contains__(self, k):
+                rig._trace.append('lookup')
+                return super().__contains__(k)
+
+            def __getitem__(self, k):
+                rig._trace.append('getEntry')
+                return super().__getitem__(k)
+
+            def __setitem__(self, k, v):
+                rig._trace.append('register')
+                return super().__setitem__(k, v)
+
+            def pop(self, *a):
+                rig._trace.append('pop')
+                return super().pop(*a)
+
+            def get(self, *a):
+                rig._trace.append('getEntry')
+                return super().get(*a)
+
+        def fresh():
+            self.new_manager()
+            m = self.mgr
+            m._transactions_lock = TLock(m._transactions_lock.real)
+            m._last_operation_invoked_reports = TDeque(m._last_operation_invoked_reports, maxlen=m._last_operation_invoked_reports.maxlen)
+            m._transactions = TDict(m._transactions)
+        orig_set = self.future_cls.set_result
+
+        def set_result(fut, result):
+            rig._trace.append('complete')
+            return orig_set(fut, result)
+        situations = [
+            ('call: Wait response, nothing buffered', [], ('response', 1, 1, 'Wait')),
+            ('call: final part buffered', [('parts', ((1, 'Fin'),))], ('response', 1, 1, 'Wait')),
+            ('call: Fail response', [], ('response', 1, 1, 'Fail')),
+            ('report: unknown transaction', [], ('parts', ((7, 'Start'),))),
+            ('report: non-final part of a registered transaction', [('response', 1, 1, 'Wait')], ('parts', ((1, 'Start'),))),
+            ('report: final part of a registered transaction', [('response', 1, 1, 'Wait')], ('parts', ((1, 'Fin'),))),
+        ]
+        with mock.patch.object(self.future_cls, 'set_result', set_result):
+            for name, prelude, ev in situations:
+                fresh()
+                self._keep = [self.step(p) for p in prelude]
+                self._trace = []
+                self._keep.append(self.step(ev))
+                progs.append((name, list(self._trace)))
+        self._trace = []
+        self.new_manager()
+        return progs
 
     def report_bytes(self, parts):
         """parts: tuple of (tx, state)"""
@@ -1175,9 +1350,15 @@ class ConsumerRig:
             self.impl.extend(Rig._attribute(done, rep, uid0))
             return [uid0 + 1 + i for i in range(len(ev[1]))]
         if ev[0] == 'response':
-            _, fid, tx, st = ev
+            _, fid, tx, st = ev[:4]
             md = self.reader.read_received_message(self.response_bytes(tx, st))
-            client = types.SimpleNamespace(post_message=lambda *a, **k: md)
+            at_lock = list(ev[4]) if len(ev) > 4 else []
+
+            def post_message(*a, **k):
+                self.lock_events = at_lock      # delivered when call_operation is about to take the lock
+                return md
+            client = types.SimpleNamespace(post_message=post_message)
+            self._lock_results = []
             fut = self.mgr.call_operation(client, None)
             self.futures[fid] = fut
             self.lines.append(f'response {fid} {tx} {st}')
@@ -1223,22 +1404,35 @@ def consumer_case(ctx, crig, case, model_cases, tx, fid):
             else:
                 merged.append(ev)
         evs = merged
+    lock = case.get('lock', 0)
+    if lock:
+        # the `lock` part events that follow the response are processed by the notification thread exactly when
+        # call_operation is about to enter its critical section (after the HTTP round trip, before the lock is taken)
+        ri = next(i for i, ev in enumerate(evs) if ev[0] == 'response')
+        moved = evs[ri + 1:ri + 1 + lock]
+        evs = evs[:ri] + [evs[ri] + (tuple(moved),)] + evs[ri + 1 + lock:]
     window = 0      # parts arriving before the response, counted from the first own part
     started = False
+
+    def note_parts(ev, uids):
+        nonlocal window, started
+        for (t, _), u in zip(ev[1], uids):
+            if t == tx:
+                own_uids.append(u)
+                if not responded:
+                    before_resp.append(u)
+            if not responded:
+                if t == tx:
+                    started = True
+                if started:
+                    window += 1
     for ev in evs:
         r = crig.step(ev)
         if ev[0] == 'parts':
-            for (t, _), u in zip(ev[1], r):
-                if t == tx:
-                    own_uids.append(u)
-                    if not responded:
-                        before_resp.append(u)
-                if not responded:
-                    if t == tx:
-                        started = True
-                    if started:
-                        window += 1
+            note_parts(ev, r)
         else:
+            for lev, lres in zip(ev[4] if len(ev) > 4 else (), crig._lock_results):
+                note_parts(lev, lres)
             fut = r
             responded = True
     window_ok = window <= crig.maxlen
@@ -1265,6 +1459,7 @@ def consumer_case(ctx, crig, case, model_cases, tx, fid):
                          f'transaction {"before the response " if immediate_resp else ""}{want}, result {got}', sig_case)
     _case(ctx, case, nontrivial=fut.done(), sample={**case, 'result parts (uids)': [p._verif_uid for p in fut.result().report_parts] if fut.done() else None, 'own uids': own_uids} if (case['burst'], case['pos'], case['gap'], len(word)) == (crig.maxlen - 1, 2, 1, 3) and word[-1] == 'FinMod' and case['fresh'] and not pack else None)
     ctx.count('consumer:resp-pos=%d' % pos)
+    ctx.count('consumer:parts-at-lock=%d' % case.get('lock', 0))
     ctx.count('consumer:window-' + ('fits' if window_ok else 'overflows'))
     return fut
 
@@ -1291,21 +1486,23 @@ def run_consumer_exhaustive(ctx, model_cases):
                                 if burst == 0 and gap > 0:
                                     continue
                                 for pack in ((False, True) if burst in (0, 1, maxlen - 1) else (True,)):
-                                    if ctx.tier == 'quick' and (n + ctx.seed) % 3 and burst not in (0, maxlen - 1, maxlen):
+                                    # parts processed exactly at the lock of call_operation: every count, for the small bursts
+                                    locks = range(0, len(word) - pos + 2) if burst in (0, 1, maxlen - 1) else (0,)
+                                    for lock in locks:
+                                        if ctx.tier == 'quick' and (n + ctx.seed) % 3 and burst not in (0, maxlen - 1, maxlen):
+                                            n += 1
+                                            continue
                                         n += 1
-                                        continue
-                                    n += 1
-                                    tx += 1
-                                    fid += 1
-                                    if fresh:
-                                        crig.new_manager()
-                                    start = len(crig.lines)
-                                    case = {'word': word, 'resp': rs, 'pos': pos, 'gap': gap, 'burst': burst, 'pack': pack,
-                                            'fresh': fresh}
-                                    consumer_case(ctx, crig, case, model_cases, tx, fid)
-                                    if fresh:
-                                        crig.finish()
-                                        model_cases.append((case, 'consumer(exhaustive)', crig.lines, crig.impl))
+                                        tx += 1
+                                        fid += 1
+                                        if fresh:
+                                            crig.new_manager()
+                                        case = {'word': word, 'resp': rs, 'pos': pos, 'gap': gap, 'burst': burst, 'pack': pack,
+                                                'fresh': fresh, 'lock': lock}
+                                        consumer_case(ctx, crig, case, model_cases, tx, fid)
+                                        if fresh:
+                                            crig.finish()
+                                            model_cases.append((case, 'consumer(exhaustive)', crig.lines, crig.impl))
             if not fresh:
                 crig.finish()
                 model_cases.append(({'long-lived manager': True}, 'consumer(long-lived)', crig.lines, crig.impl))
@@ -1407,6 +1604,7 @@ def translate(ctx):
             fut = crig.step(('response', i + 1, i + 1, st))
             if fut.done():
                 immediate.append(st)
+        progs = crig.traced_programs()
     finally:
         crig.close()
     lock_rig = IdLockRig()
@@ -1428,6 +1626,11 @@ def translate(ctx):
            f'def immediateStates : List St := {lst(immediate)}\n'
            '/-- dynamic trace of `SdcProvider.generate_transaction_id` (lock operations and accesses to `_transaction_id`) -/\n'
            f"def idProg : List Lts.Act := [{', '.join('.' + a for a in acts)}]\n"
+           '/-- dynamic traces of `OperationsManager.call_operation` (after the HTTP round trip) and `on_operation_invoked_report`:\n'
+           '    lock operations and accesses to `_transactions`, the early-part buffer and the future -/\n'
+           'def consumerProgs : List (List Sync.CAct) := [\n'
+           + ',\n'.join(f"  /- {name} -/ [{', '.join('.' + a for a in prog)}]" for name, prog in progs)
+           + ']\n'
            'end Sdc.Generated.C09\n')
     core.write_if_changed(core.GENERATED + '/Invocation.lean', src)
 
@@ -1440,9 +1643,9 @@ def fixed_scripts(ops, cap):
     res = []
     cid = [0]
 
-    def call(op, outcome, consumer=0, after_id=(), in_handler=(), before_response=()):
+    def call(op, outcome, consumer=0, after_id=(), in_handler=(), before_response=(), at_lock=()):
         cid[0] += 1
-        return ['call', cid[0], op, consumer, outcome, list(after_id), list(in_handler), list(before_response)]
+        return ['call', cid[0], op, consumer, outcome, list(after_id), list(in_handler), list(before_response), list(at_lock)]
     # every final state / raise, direct and queued, report before and after the response
     for direct in (False, True):
         for early in (False, True):
@@ -1479,6 +1682,18 @@ def fixed_scripts(ops, cap):
     res.append(('final-before-response', {},
                 [call(s_str, 'Fin', consumer=1), call(s_str, 'FinMod', consumer=0, before_response=[['tick', 0], ['tick', 0], ['deliver', 0, None]]),
                  ['deliver', 1, None]]))
+    # a successful queued operation followed by a raising one on the same worker (one run() invocation), both services
+    cid[0] = 0
+    res.append(('success-then-raise-same-worker', {},
+                [call(s_str, 'Fin'), call(s_ctx, 'FinMod', consumer=1), call(s_act, 'raise'), call(s_str, 'raise', consumer=1),
+                 call(s_ctx, 'Cnclld'), ['tick', 0], ['tick', 0], ['tick', 0], ['tick', 0], ['tick', 0], ['deliver', 0, None], ['deliver', 1, None]]))
+    # the reports arrive exactly when call_operation is about to enter its critical section
+    cid[0] = 0
+    res.append(('reports-at-the-lock', {s_val: True},
+                [call(s_str, 'Fin', before_response=[['tick', 0]], at_lock=[['deliver', 0, None]]),
+                 call(s_val, 'raise', at_lock=[['deliver', 0, None]]),
+                 call(s_act, 'FinMod', before_response=[['tick', 0], ['deliver', 0, 1]], at_lock=[['deliver', 0, 1], ['deliver', 0, 1]]),
+                 call(s_ctx, 'Fail', consumer=1, at_lock=[['tick', 0], ['deliver', 1, None]]), ['deliver', 0, None], ['deliver', 1, None]]))
     # a future dropped by the application
     cid[0] = 0
     res.append(('dropped-future', {}, [call(s_str, 'Fin'), ['drop', 0, 1], ['tick', 0], ['deliver', 0, None], call(s_str, 'Fin'), ['tick', 0]]))
@@ -1510,7 +1725,7 @@ def run(ctx):
         events, specs = script_from_canon(canon)
         rig, c, done = run_script(ctx, events, specs, modes, model_cases)
         _case(ctx, {'fixed': name}, nontrivial=done > 0,
-              sample={'scenario': name, 'messages of the first transactions': rig.msgs[:8]} if name in ('queue-full', 'id-order-vs-dispatch-order') else None)
+              sample={'scenario': name, 'messages of the first transactions': rig.msgs[:8]} if name in ('queue-full', 'success-then-raise-same-worker') else None)
         ctx.count('scenario:' + name)
     rng = ctx.subrng('scripts')
     for k in range(ctx.n(30, 200)):
